@@ -212,8 +212,7 @@ theorem digitalRe_code (rest : List Char) (n : Nat) (h : Gen.digitalRe.matchLen 
 
 /-! ### the three rules keep the inline contract -/
 
-theorem iok_entity (ext : IExt) : IRuleOK2 (ruleEntity ext) := by
-  apply iok_of_shape
+theorem shape_entity (ext : IExt) : LeafShape (ruleEntity ext) := by
   intro s silent hc
   have hin : s.pos < s.src.length := by have := hc.1; have := hc.2; omega
   unfold ruleEntity
@@ -278,8 +277,7 @@ theorem autolinkScan_ok (src : List Char) (max : Nat) (hmax : max ≤ src.length
         · exact ⟨_, rfl⟩
         · exact ih _
 
-theorem iok_autolink (ext : IExt) : IRuleOK2 (ruleAutolink ext) := by
-  apply iok_of_shape
+theorem shape_autolink (ext : IExt) : LeafShape (ruleAutolink ext) := by
   intro s silent hc
   have hin : s.pos < s.src.length := by have := hc.1; have := hc.2; omega
   unfold ruleAutolink
@@ -316,8 +314,7 @@ theorem iok_autolink (ext : IExt) : IRuleOK2 (ruleAutolink ext) := by
             exact .inr ⟨_, rfl, by show s.pos < s.pos + _ + 2; omega, a, b, c⟩
         · exact .inl rfl
 
-theorem iok_htmlInline (ext : IExt) : IRuleOK2 (ruleHtmlInline ext) := by
-  apply iok_of_shape
+theorem shape_htmlInline (ext : IExt) : LeafShape (ruleHtmlInline ext) := by
   intro s silent hc
   have hin : s.pos < s.src.length := by have := hc.1; have := hc.2; omega
   unfold ruleHtmlInline
@@ -346,6 +343,10 @@ theorem iok_htmlInline (ext : IExt) : IRuleOK2 (ruleHtmlInline ext) := by
             simp only [Bool.false_eq_true, if_false]
             obtain ⟨p1, p2, p3, _⟩ := push0_frame s "html_inline" "" (String.ofList (List.take n (List.drop s.pos s.src))) "" ""
             exact .inr ⟨_, rfl, by show s.pos < s.pos + n; omega, p1, p2, p3⟩
+
+theorem iok_entity (ext : IExt) : IRuleOK2 (ruleEntity ext) := iok_of_shape _ (shape_entity ext)
+theorem iok_autolink (ext : IExt) : IRuleOK2 (ruleAutolink ext) := iok_of_shape _ (shape_autolink ext)
+theorem iok_htmlInline (ext : IExt) : IRuleOK2 (ruleHtmlInline ext) := iok_of_shape _ (shape_htmlInline ext)
 
 /-- the inline chain `text, newline?, escape?, backticks?, strikethrough?, emphasis?, autolink?, html_inline?, entity?`
     (registration order of `parser_inline._rules`, without `linkify`, `link`, `image`) -/
